@@ -96,6 +96,20 @@ def _timeout_param(fi):
 # ---------------------------------------------------------------------------
 
 
+def wrong_timer_api(ck, rule, fi, tparam) -> bool:
+    """The caller's timeout (a number = absolute deadline on the loop's clock, or a timedelta = relative) keeps its
+    documented meaning only when it is handed to ``add_timeout`` unchanged.  A timer armed with ``call_later`` /
+    ``call_at`` from that value (directly or after re-binding the parameter) is positive evidence of a changed
+    deadline semantics: reported as a violation.  Returns True if something was reported."""
+    hit = False
+    for nd, c in own_find(fi, lambda x: isinstance(x, ast.Call) and q.call_attr(x) in ("call_later", "call_at") and isinstance(x.func, ast.Attribute)):
+        a0 = q.arg(c, 0, "delay") or q.arg(c, 0, "when")
+        if a0 is not None and any(isinstance(n, ast.Name) and n.id == tparam for n in ast.walk(a0)):
+            hit = True
+            ck.ob(rule, fi, c, False, "the waiter's timer is armed with add_timeout(timeout, ...): a numeric timeout is an absolute deadline and a timedelta a delay; %s(...) gives the caller's value a different meaning" % q.call_attr(c))
+    return hit
+
+
 def check_acquire(ck, fi):
     cfg = fi.cfg
     deltas = _deltas(fi)
@@ -126,6 +140,8 @@ def check_acquire(ck, fi):
               "acquire ends either with one permit taken and one grant, or with no change and one enqueue (delta=%d grants=%d enqueued=%d)" % (d, g, e),
               construct="exit delta=%d grants=%d enqueued=%d" % (d, g, e))
         if e == 1 and (tfact, True) not in facts:
+            if not tmo and wrong_timer_api(ck, "C33.timeout", fi, tparam):
+                continue
             if not tmo and any(isinstance(c, ast.Call) and tparam in {q.dotted(a) for a in c.args} for c in q.calls(fi.node)):
                 raise AnalysisError("%s: no add_timeout call but the timeout is handed to a helper; registration idiom unknown" % fi.site())
             ck.ob("C33.timeout", fi, fi.node, t == 1, "an enqueued acquire with a timeout registers exactly one timer (timers=%d)" % t,
@@ -588,6 +604,7 @@ def _drop_done_test(root):
 
 
 MUTANTS = [
+    ("acquire arms its timer with call_later(timeout) (absolute deadlines never fire)", _in("Semaphore.acquire", replace_expr(lambda n: isinstance(n, ast.Call) and q.call_attr(n) == "add_timeout", lambda n: ast.Call(func=ast.Attribute(value=n.func.value, attr="call_later", ctx=ast.Load()), args=n.args, keywords=[]))), "C33.timeout"),
     ("a cancelled queued waiter gives back a permit it never held (seeded C33-adv3)", _in("Semaphore.acquire", replace_stmt(lambda st: isinstance(st, ast.Expr) and "_waiters.append" in ast.unparse(st), lambda st: [st, parse_stmt("waiter.add_done_callback(lambda f: self.release() if f.cancelled() else None)")])), "C33.who-releases"),
     ("the timeout callback releases", _in("Semaphore.acquire.<locals>.on_timeout", replace_stmt(lambda st: "_garbage_collect" in ast.unparse(st), lambda st: [parse_stmt("self.release()"), st])), "C33.who-releases"),
     ("async with enters without waiting for the permit (__aenter__ does not await)", _in("Semaphore.__aenter__", replace_stmt(lambda st: isinstance(st, ast.Expr) and isinstance(st.value, ast.Await), lambda st: [ast.Expr(value=st.value.value)])), "C33.ctx"),
